@@ -439,6 +439,22 @@ def gen_nem(rng, tier):
 		transaction.signer_public_key = nc.PublicKey(rand_bytes(rng, 32))
 		transaction.fee = nc.Amount(rng.randrange(2**64))
 		buffers.append((f'default:{name}', transaction.serialize()))
+	# schema-directed values of every NEM transaction class: EVERY member takes non-default values (plain integers such as
+	# min_approval_delta included), both arms of conditionals, arrays of several lengths
+	from .. import codec
+	codec.setup_paths()
+	net = codec.load_net('nem')
+	generator = codec.Generator(net, rng)
+	for model in net.models:
+		if codec.kind(model) != 'Struct' or model.is_abstract or not model.name[-1].isdigit() or 'Transaction' not in model.name \
+			or model.name.startswith('NonVerifiable') or not hasattr(nc, model.name):
+			continue
+		for _ in range(2 if tier == 'quick' else 12):
+			try:
+				transaction = codec.to_object(net, model.name, generator.struct(model, 0))
+				buffers.append((f'generated:{model.name}', bytes(transaction.serialize())))
+			except Exception:  # pylint: disable=broad-except
+				continue
 	mutations = 4 if tier == 'quick' else 30
 	for label, buffer in buffers:
 		variants = [(buffer, None)]
